@@ -216,6 +216,13 @@ func (w *world) build(class string, slot int, seed int) request {
 		req, data := w.baseCreate(id, coll)
 		data["collection_infos"] = []interface{}{M{"name": coll, "positions": M{vchan: position(vchan)}}}
 		return post(req)
+	case "c_full": // the task limit is reached: a valid create WITH a start position for one more task
+		req, data := w.baseCreate("task-extra", "coll_extra")
+		data["collection_infos"] = []interface{}{M{"name": "coll_extra", "positions": M{vchan: position(vchan)}}}
+		r := post(req)
+		ts, _ := w.env.Store.Dump()
+		r.mustReject = len(ts) >= w.env.Cfg.MaxTaskNum // only when the limit really is reached (an earlier request of the plan may have been refused)
+		return r
 	case "create_rpcpos": // valid create with a position for the replicate-message channel
 		req, data := w.baseCreate(id, coll)
 		data["rpc_channel_info"] = M{"name": srvenv.ReplicateChan, "position": position(srvenv.ReplicateChan)}
@@ -545,13 +552,22 @@ func (w *world) observe(ev hx.Event) {
 
 func run(p *hx.Plan) []hx.Event {
 	good, bad := srvenv.MilvusURIs()
-	w := &world{env: srvenv.New(100), good: good, bad: bad, seed: int(hx.Seed()), spec: map[int]M{}}
+	maxTasks := hx.I(p.Params, "max_tasks") // = number of task slots of the plan's model configuration (c_full)
+	if maxTasks == 0 {
+		maxTasks = 100
+	}
+	w := &world{env: srvenv.New(maxTasks), good: good, bad: bad, seed: int(hx.Seed()), spec: map[int]M{}}
 	w.srv = httptest.NewServer(w.env.Handler())
 	w.srv.Config.ErrorLog = nil
 	tr := &http.Transport{DisableKeepAlives: true}
-	w.client = &http.Client{Transport: tr, Timeout: 60 * time.Second}
+	w.client = &http.Client{Transport: tr, Timeout: 8 * time.Second}
+	hung := false
 	defer func() {
 		tr.CloseIdleConnections()
+		if hung { // a handler never answered: Close would wait for it for ever; the wedged server is abandoned
+			w.srv.CloseClientConnections()
+			return
+		}
 		w.srv.Close()
 		w.env.Close()
 	}()
@@ -569,6 +585,25 @@ func run(p *hx.Plan) []hx.Event {
 		r := w.build(class, slot, seed)
 		existed := w.hasTask(slotID(slot))
 		a := w.send(r)
+		if a.broken && (strings.Contains(a.errText, "Client.Timeout") || strings.Contains(a.errText, "deadline exceeded")) {
+			// no answer within 8 s: the handler is stuck (recorded as a broken answer; the server state can no longer be
+			// observed - its locks may be held - so the digests of the previous event are repeated and the plan ends here)
+			hung = true
+			prev := evs[len(evs)-1]
+			ev := hx.Event{"op": class, "i": i + 2, "n": i + 2, "slot": slot, "method": r.method, "broken": true, "http": 0, "err": "no answer: " + a.errText,
+				"must_reject": r.mustReject, "draw": seed, "body_utf8": utf8.Valid(r.body), "body": "", "json_ok": false, "code": -1,
+				"has_msg": false, "has_data": false, "answer": "", "hung": true}
+			for _, k := range []string{"d_tasks", "d_ckpt", "d_book", "d_mem", "ntasks", "nckpt"} {
+				if v, ok := prev[k]; ok {
+					ev[k] = v
+				}
+			}
+			for _, e0 := range evs {
+				e0["n"] = i + 2
+			}
+			evs = append(evs, ev)
+			break
+		}
 		if !existed { // a create for an id that exists is answered with the existing task and creates nothing
 			w.remember(class, slot, r, a)
 		}
